@@ -318,6 +318,16 @@ def floor(tier):
     out.append({"kind": "seg-seg", "nd": 3, "start": [-2, 0, 0], "end": [2, 0, 0],
                 "start_set": [[0, -2, 1], [1, -1, 2], [-1, -3, -1], [0, -1, 3], [1, 2, -2]],
                 "end_set": [[0, 2, 1], [1, 3, 2], [-1, 3, -1], [0, 1, 3], [1, -2, -2]]})
+    # long, nearly (not exactly) parallel segments converging towards the end / the start
+    # of the main segment (|sin| ~ 1e-5 .. 1e-3: far above the code's parallel tolerance)
+    out.append({"kind": "seg-seg", "nd": 2, "start": [0, 0], "end": [100000, 0],
+                "start_set": [[0, 3], [0, 2], [100000, 5], [0, -4], [-100000, 7]],
+                "end_set": [[100000, 2], [100000, 3], [0, 1], [100000, -1], [200000, 3]]})
+    out.append({"kind": "seg-seg", "nd": 3, "start": [0, 0, 0], "end": [0, 0, 50000],
+                "start_set": [[3, 0, 0], [0, 2, 50000], [1, 1, -50000], [4, 0, 10000]],
+                "end_set": [[2, 0, 50000], [0, 5, 0], [3, 3, 100000], [1, 0, 40000]]})
+    out.append({"kind": "seg-set", "nd": 2, "start": [[0, 0], [0, 3], [0, -5]],
+                "end": [[100000, 0], [100000, 2], [100000, -1]]})
     out.append({"kind": "seg-set", "nd": 2, "start": [[0, 0], [0, 2], [3, 0]], "end": [[1, 0], [1, 2], [3, 4]]})
     out.append({"kind": "seg-set", "nd": 2, "start": [[0, 0], [0, 2]], "end": [[1, 0], [1, 3]]})
     out.append({"kind": "seg-set", "nd": 3, "start": [[0, 0, 1]], "end": [[1, 0, 3]]})
